@@ -61,6 +61,7 @@ type FuncContract struct {
 	Labels   []LabelDecl
 	Preserves []*Expr // with `modifies *`: these locations keep their values
 	Stable    []*Expr // caller-owned locations: not changed by other threads while this function waits for a lock
+	Abstract  []string // `abstract maps(T)`: contents of maps of type T are not modelled in this function (every write havocs them)
 }
 
 // LabelDecl names the state right after the (first) call of Callee: `label P after call <callee>`.
@@ -288,6 +289,14 @@ func (C *Contracts) loadContractFile(path string, defaultPkg string) error {
 					return fmt.Errorf("%s: %v", where(L.line), err)
 				}
 				cur.Preserves = append(cur.Preserves, e)
+			}
+		case "abstract":
+			for _, m := range splitTop(rest) {
+				m = strings.TrimSpace(m)
+				if !strings.HasPrefix(m, "maps(") || !strings.HasSuffix(m, ")") {
+					return fmt.Errorf("%s: abstract maps(T)", where(L.line))
+				}
+				cur.Abstract = append(cur.Abstract, m[5:len(m)-1])
 			}
 		case "stable":
 			for _, m := range splitTop(rest) {
